@@ -211,6 +211,11 @@ func cmdCheck(args []string) int {
 	if *tier == "thorough" {
 		eng.TimeoutMs = 120000
 		eng.MaxPaths = 400000
+		if _, err := exec.LookPath("cvc5"); err == nil && os.Getenv("VERIF_NOMIRROR") == "" {
+			// every check-sat is also decided by cvc5 on the same incremental session; two decided verdicts that
+			// differ make the query inconclusive
+			eng.MirrorBin = []string{"cvc5", "--incremental", "--tlimit-per=120000"}
+		}
 	}
 	hs := eng.Harnesses()
 	if *only != "" {
@@ -229,6 +234,27 @@ func cmdCheck(args []string) int {
 			return sha(hs[i].Name, seed) < sha(hs[j].Name, seed)
 		})
 	}
+	// translator validation: for a sample of harnesses one completed path is re-run natively from a model of its
+	// path condition; the native run must pass every assertion as the symbolic run did
+	nWit := 6
+	if *tier == "thorough" {
+		nWit = 30
+	}
+	if *noReplay {
+		nWit = 0
+	}
+	witSet := map[string]bool{}
+	{
+		names := make([]string, 0, len(hs))
+		for _, h := range hs {
+			names = append(names, h.Name)
+		}
+		sort.Slice(names, func(i, j int) bool { return sha(names[i], seed+1) < sha(names[j], seed+1) })
+		for i := 0; i < len(names) && i < nWit; i++ {
+			witSet[names[i]] = true
+		}
+	}
+	eng.WantWitness = func(h *gosym.Harness) bool { return witSet[h.Name] }
 	fmt.Printf("%s tier=%s: %d harnesses in %d packages (load %.1fs)\n", id, *tier, len(hs), len(patterns), eng.LoadTime.Seconds())
 	results := eng.RunAll(hs, func(r *gosym.HarnessResult) {
 		if *verbose {
@@ -339,6 +365,38 @@ func cmdCheck(args []string) int {
 	}
 	wg.Wait()
 
+	// native cross-validation of sampled passing paths
+	witOK := 0
+	var wmu sync.Mutex
+	for _, r := range results {
+		if r.Witness == nil {
+			continue
+		}
+		r := r
+		wg.Add(1)
+		go func() {
+			defer wg.Done()
+			sem <- struct{}{}
+			defer func() { <-sem }()
+			var ok bool
+			var det, dir string
+			if sc != nil {
+				dir, ok, det = sc.replay(id, *tier, r.Witness, r.H)
+			} else {
+				dir, ok, det = replayCex(id, *tier, r.Witness, r.H, srcs)
+			}
+			wmu.Lock()
+			defer wmu.Unlock()
+			if ok {
+				witOK++
+				os.RemoveAll(dir)
+			} else {
+				inconclusive = append(inconclusive, fmt.Sprintf("%s: a path that passes symbolically does not pass natively (%s) - executor/stub disagreement, see %s", r.H.Name, det, dir))
+			}
+		}()
+	}
+	wg.Wait()
+
 	violations := 0
 	knownHits := 0
 	if sc != nil {
@@ -392,12 +450,15 @@ func cmdCheck(args []string) int {
 	ev.Coverage = map[string]interface{}{
 		"states":                        paths,
 		"transitions":                   steps,
-		"traces_validated_against_impl": replayed,
+		"traces_validated_against_impl": replayed + witOK,
+		"passing_paths_cross_validated_natively": witOK,
+		"counterexamples_replayed_natively": replayed,
 		"samples":                       samples,
 		"harnesses":                     len(hs),
 		"functions_encoded":             map[string]interface{}{"count": nRepoFuncs, "all_including_std": len(funcs), "names": fnames},
 		"queries":                       map[string]interface{}{"total": queries, "assertions": asserts, "assertions_trivially_true_by_folding": trivial, "unsat": discharged, "unknown": inconcl},
 		"solver_s":                      solverT.Seconds(),
+		"second_solver":                 map[string]interface{}{"cmd": strings.Join(eng.MirrorBin, " "), "verdict_disagreements": eng.Disagreements, "sessions_lost": eng.MirrorLost},
 		"path_ends":                     ends,
 		"bounds":                        bounds,
 		"limits":                        map[string]interface{}{"call_depth": eng.Defaults.MaxDepth, "loop_unwind": eng.Defaults.LoopBound, "steps_per_path": eng.Defaults.MaxSteps, "solver_timeout_ms": eng.TimeoutMs},
@@ -425,6 +486,9 @@ func cmdCheck(args []string) int {
 
 	fmt.Printf("%s: harnesses=%d paths=%d steps=%d assertions=%d (unsat %d, folded %d, unknown %d) queries=%d solver=%.1fs wall=%.1fs ends=%v\n",
 		id, len(hs), paths, steps, asserts, discharged, trivial, inconcl, queries, solverT.Seconds(), time.Since(t0).Seconds(), ends)
+	if eng.Disagreements > 0 {
+		inconclusive = append(inconclusive, fmt.Sprintf("%d solver verdicts differ between %s and %s", eng.Disagreements, eng.SolverBin[0], eng.MirrorBin[0]))
+	}
 	if violations > 0 {
 		return 1
 	}
@@ -626,6 +690,10 @@ func runReplay(dir string) (bool, string) {
 		got = strings.TrimSpace(m[1])
 	}
 	switch kind {
+	case "witness":
+		if got == "ok" {
+			return true, "native run passes too"
+		}
 	case "assert":
 		if got == "assert:"+label {
 			return true, got
